@@ -72,7 +72,7 @@ Theorem sort_refines : forall s E o n perm s' o',
     /\ In n (names_of o) /\ argsort_ok (bdata (E n)) perm = true.
 Proof.
   intros s E o n perm s' o' R [L0 L1] H. pose proof (sort_spec s E o n perm R) as S. rewrite H in S.
-  destruct S as (ext & todo & S1 & S2 & S3 & (Q1 & Q2 & Q3 & Q4) & S5 & S6 & S7).
+  destruct S as (ext & todo & S1 & S2 & S3 & (Q1 & Q2 & Q3 & Q4) & S5 & S6 & S7 & _ & _).
   destruct (S5 eq_refl) as (-> & Hin & AO). specialize (S7 eq_refl).
   unfold argsort_ok in AO; apply andb_prop in AO; destruct AO as [IP SO].
   assert (Ln : length (bdata (E n)) = Z.to_nat (olen o)).
